@@ -85,7 +85,7 @@ def gen_curve_faults(r, tier):
 class C09(Prop):
     id = "C09"
     lean_modules = ["Fan2go.Props.C09"]
-    fact_modules = ["Fan2go.Props.Facts", "Fan2go.Props.Trans2Evaluate", "Fan2go.Props.Trans3A", "Fan2go.Props.Trans3B", "Fan2go.Props.Trans3Fan", "Fan2go.Props.Trans3Leaf", "Fan2go.Props.Trans3FileFan"]
+    fact_modules = ["Fan2go.Props.Facts", "Fan2go.Props.Trans2Evaluate", "Fan2go.Props.Trans3A", "Fan2go.Props.Trans3B", "Fan2go.Props.Trans3Fan", "Fan2go.Props.Trans3Leaf", "Fan2go.Props.Trans3FileFan", "Fan2go.Props.Trans3FileIO"]
     rule = ("faulty: real controllers (hwmon / file fans on virtual devices, cmd fans on real scripts and processes) with failing, garbage, refused and silently ignored "
             "reads and writes of the PWM, mode and RPM registers switched on and off between cycles (singles, pairs, many); "
             "curve-faults: linear / PID / nested function curves over sensors whose reads fail; sensor: C08's sensor stream; "
